@@ -1152,10 +1152,30 @@ fn get_variance(
     buffer_key: &String,
     n: usize,
 ) -> f64 {
+    let numbers = buffer_numbers(raw_output_buffer, buffer_key);
+
+    // while all values are whole numbers each deviation from the mean is taken exactly,
+    // (count * value - total) / count: subtracting a mean that was rounded to a double first
+    // loses as much as the deviations themselves when the values are large
+    if let Number::Whole(total) = get_buffer_sum(raw_output_buffer, buffer_key) {
+        let count = numbers.len() as i128;
+        let mut result: f64 = 0.0;
+        for number in &numbers {
+            if let Number::Whole(value) = number {
+                if let Some(scaled) = count.checked_mul(*value).and_then(|v| v.checked_sub(total)) {
+                    result += (scaled as f64 / count as f64).powi(2) / n as f64;
+                    continue;
+                }
+            }
+            result += (total as f64 / count as f64 - number.as_f64()).powi(2) / n as f64;
+        }
+        return result;
+    }
+
     let avg = get_mean(raw_output_buffer, buffer_key);
 
     let mut result: f64 = 0.0;
-    for number in buffer_numbers(raw_output_buffer, buffer_key) {
+    for number in numbers {
         result += (avg - number.as_f64()).powi(2) / n as f64;
     }
 
